@@ -255,17 +255,17 @@ ADDENDA = {
     "C02": "Seed tables start with a two-file manifest (partial deletes rewrite a manifest readers use); cells with a lost / 412-answered / refused pointer PUT on S3; cells with one transient I/O error on the READER's own access to the pointer while a writer is mid-commit.",
     "C03": "Object storage: the operation runs in its own thread against the S3 double and is parked for ever before its k-th request, for every k (no finally / rollback / lock release runs; the lock object lapses by lease), followed by the same reopen / append / collection oracle.",
     "C04": "Fault kind 'applied then answered 412' on conditional PUTs; OS-level enumeration: the i-th os.fsync / replace / write / open / remove / unlink made by the package raises EIO; scenario 'readd' (append_files of a file older snapshots still reference).",
-    "C05": "Histories include pre-built files spelled './data/x', 'data//x', 'data/./x', 'data/sub/../x' and an open transaction holding two pre-built files with the same basename in two partition directories.",
+    "C05": "Histories include pre-built files spelled './data/x', 'data//x', 'data/./x', 'data/sub/../x' and an open transaction holding two pre-built files with the same basename in two partition directories, and a live transaction re-registering the files of a dead one.",
     "C06": "Seed table starts with a two-file manifest; object-store cells: for every S3 request of a collection the transaction stages (or stages and commits) inside that request, under process time zones UTC, +9, -5, +5:45.",
     "C07": "The scenario contains an uncommitted metadata file of the current version, a two-file manifest and an open transaction with pre-built files in partition directories; damage classes include per-snapshot manifest-list fields nulled / emptied / removed in still-valid JSON; marker operations also fail with 'not found' (listed a moment ago).",
     "C08": "Cells with weather on the pointer PUT under a lock that excludes nobody; a thief that takes the lock over and releases it at once; cells where only the lock OBJECT grows old (the holder's clock shows no lapse); non-UTC process zones.",
     "C09": "Histories include a commit that loses an OCC race once, clocks that step back by an hour, 32 scripted shared-manifest expiry histories; the as-of-time oracle is the property's wording (most recently committed snapshot not newer than t).",
-    "C10": "Pointer grammar includes non-ASCII digits and 5000-digit strings; histories with more than ten versions and with a long-lived handle whose in-memory state is stale; after an append every metadata-log entry must name an existing file.",
+    "C10": "Pointer grammar includes non-ASCII digits and 5000-digit strings; histories with more than ten versions and with a long-lived handle whose in-memory state is stale; a table that never left version 0; after an append every metadata-log entry must name an existing file.",
     "C11": "Temporal values under non-UTC zones; exact fractions beyond float precision; a misspelt optional key in a record with as many keys as fields; two accepted pre-built files with the same basename in different directories.",
     "C12": "Signed zero in the value pools; 22 malformed-filter classes; order independence (the same 384 filters in 4 orders, each in a fresh process); the random differential also under non-UTC process zones.",
-    "C13": "Cross literals include Decimal, float-width mismatches, strings and bytes; temporal domains include values inside a DST gap; tables written under one process zone and read under another; fallback truth = the library's own scan with pruning switched off.",
+    "C13": "Cross literals include Decimal, float-width mismatches, strings and bytes; temporal domains include values inside a DST gap; tables written under one process zone and read under another; fallback truth = the library's own scan with pruning switched off; 3500-row files with NaN / NULL / extremes in one writer batch only.",
     "C14": "TOCTOU damage (the file is replaced between two accesses of one read call); one bookkeeping field of one manifest-list / manifest entry changed in valid Avro; checksum verification switched on through the environment in every accepted spelling; pointer and all metadata files deleted under an open handle.",
-    "C15": "Histories include lost OCC races, stepped-back clocks, a file registered by two commits before its delete, a bare string passed to delete_files.",
+    "C15": "Histories include lost OCC races, stepped-back clocks, a file registered by two commits before its delete, a bare string passed to delete_files, two delete_files calls in one transaction.",
     "C16": "Further traced lives: a short write, a refused rename (EXDEV), a failing DIRECTORY fsync per directory, two threads on one Table object with one suspended inside a marker write while the other commits, and a life whose metadata files are larger than 4 MiB.",
     "C17": "True absolute spellings lexically inside the root that leave it through a symlink (also as tampered manifest entries); whole commits and collections after '.locks', 'metadata/inflight', 'data', ... became symlinks.",
     "C18": "Creator whose create-if-absent pointer PUT is applied and then answered 412; the S3 double pages every listing by 5 keys.",
